@@ -44,6 +44,11 @@ type pgScn struct {
 	H      int       `json:"H"`
 	Hfirst int       `json:"Hfirst"`
 	Pages  []pgPage  `json:"pages"`
+	Nth    struct {
+		A int `json:"a"`
+		B int `json:"b"`
+	} `json:"nth"`
+	NthPages []bool `json:"nthpages"`
 	// optional decorations chosen by the generator (simulation mode)
 	Wrap int `json:"wrap"` // 1: paragraphs are wrapped in a <div> with padding; 2: in a <section><article>
 }
@@ -56,6 +61,9 @@ func c12HTML(s *pgScn) string {
 	fmt.Fprintf(&b, `<html><head><style>@page{size:200px %dpx;margin:10px;@bottom-center{content:counter(page) "/" counter(pages);font-family:weasyprint;font-size:8px;line-height:10px}}`, pageH(s.H))
 	if s.Hfirst != 0 {
 		fmt.Fprintf(&b, `@page :first{size:200px %dpx}`, pageH(s.Hfirst))
+	}
+	if s.NthPages != nil {
+		fmt.Fprintf(&b, `@page :nth(%dn%+d){margin-right:25px}`, s.Nth.A, s.Nth.B)
 	}
 	b.WriteString(`@page :left{margin-left:20px}@page :right{margin-left:30px}@page :blank{@top-center{content:"blank";font-family:weasyprint;font-size:8px;line-height:10px}}`)
 	b.WriteString(`html,body,div,section,article{display:block;margin:0;padding:0}p{display:block;margin:0;font-family:weasyprint;font-size:8px;line-height:10px}</style></head><body>`)
@@ -95,7 +103,7 @@ type obsPage struct {
 	texts  []string
 	margin []string
 	w, h   float64
-	ml     float64
+	ml, mr float64
 	bottom float64
 	maxY   float64
 }
@@ -104,7 +112,7 @@ func c12Observe(pages []*boxes.PageBox) ([]obsPage, string) {
 	var out []obsPage
 	for _, p := range pages {
 		o := obsPage{Lines: []int{}, Right: p.PageType.Side == "right", Blank: p.PageType.Blank, First: p.PageType.First}
-		o.w, o.h, o.ml = float64(p.MarginWidth()), float64(p.MarginHeight()), float64(p.MarginLeft.V())
+		o.w, o.h, o.ml, o.mr = float64(p.MarginWidth()), float64(p.MarginHeight()), float64(p.MarginLeft.V()), float64(p.MarginRight.V())
 		o.bottom = float64(p.ContentBoxY()) + float64(p.Height.V())
 		for _, c := range p.Children {
 			_, isMargin := c.(*boxes.MarginBox)
@@ -134,6 +142,17 @@ func c12Observe(pages []*boxes.PageBox) ([]obsPage, string) {
 		out = append(out, o)
 	}
 	return out, ""
+}
+
+// nthMatch: i = a*n + b for some integer n >= 0 (only used for pages beyond those of the model; cross-checked with
+// the specification's NthMatch on every page the model has)
+func nthMatch(a, b, i int) bool {
+	for n := 0; n <= i+6; n++ {
+		if a*n+b == i {
+			return true
+		}
+	}
+	return false
 }
 
 func c12Main(args []string) int {
@@ -220,6 +239,19 @@ func c12Main(args []string) int {
 			}
 			if math.Abs(o.ml-wantML) > 0.01 {
 				out.Disagree("C12:geometry:side-margin", fmt.Sprintf("page %d (right=%v) has margin-left %g instead of %g: %s", i+1, o.Right, o.ml, wantML, show()), detail())
+			}
+			if s.NthPages != nil {
+				wantMR := 10.0
+				// (the page index is the real one, so this holds whatever the page sequence is)
+				if nthMatch(s.Nth.A, s.Nth.B, i+1) {
+					wantMR = 25
+				}
+				if i < len(s.NthPages) && s.NthPages[i] != nthMatch(s.Nth.A, s.Nth.B, i+1) {
+					out.Fatal("harness and specification disagree on :nth matching")
+				}
+				if math.Abs(o.mr-wantMR) > 0.01 {
+					out.Disagree("C12:geometry:nth-selector", fmt.Sprintf("page %d has margin-right %g instead of %g with @page :nth(%dn%+d){margin-right:25px}: %s", i+1, o.mr, wantMR, s.Nth.A, s.Nth.B, show()), detail())
+				}
 			}
 			wantMargin := []string{fmt.Sprintf("%d/%d", i+1, len(obs))}
 			if o.Blank {
